@@ -7,7 +7,7 @@ open Io
        O <n> entries:  split <arg> <strs> | strip|norm|mkid|nlt|nl|gfm <arg> <res> | isdigit <arg> 0|1
                      | lex <lang> <text> (! | <k> (<classes strs> <value>)*k) | p2d <arg> (~ | F | D <docname>) | p2r <arg> (~ | D <docname>)
                      | dj <arg> (~ | D <docname>) | acc <arg> 0|1 | split1 <arg> <strs>
-                     | dyn <key strs> (~ | N <n> node*n <warning strs>)
+                     | dyn <key strs> (~ | N <n> nodes <warning strs>)
        T <n> tokens:   <ty> <tag> <na> (<k> <v>)* <content> <markup> <info> <nm> (<k> <v>)* <map ~|a,b> <nc> children
    flags = all_links_external highlight mathjax_block html_convert footnote_sort footnote_transition (0/1 each)
    Reply: tree " | " warnings, or !<error>. *)
@@ -40,7 +40,7 @@ type tables = {
   mutable t_dyn : (n list list * (node list * n list list) option) list;
 }
 
-(* a node in the syntax of show_node: X <oid> <text> | E <oid> <tag> <na> (<k> <nv> <v>*)* <nc> children *)
+(* a node in the syntax of show_node: X oid text | E oid tag na (k nv v..).. nc children *)
 let rec parse_node (r : string list) : node * string list =
   match r with
   | "X" :: o :: s :: r -> (Text (n_of_int (int_of_string o), str_of_field s), r)
